@@ -66,7 +66,7 @@ def run(ck, tier):
                 ck.refuted("R-C03-apply", key, f.loc(r["ln"]), "%s fails inside the precondition, e.g. %s" % (r["what"], r["model"]))
         ck.floor("R-C03-apply", "fallible operations in Suggestion::apply", n, 6)
     # re-basing: shared rule
-    c05._key(c05._Sub(_Only(ck, "chunk-cache:rebase"), "R-C03-rebase", ""), p, byk)
+    c05._key(c05._Sub(_Only(ck, ("chunk-cache:rebase", "chunk-cache:get:chars", "chunk-cache:put:chars")), "R-C03-rebase", ""), p, byk)
 
 
 def _arm(f, bb):
@@ -107,7 +107,8 @@ class _Only:
         return getattr(self.ck, n)
 
     def _f(self, meth, rule, key, *a, **kw):
-        if self.keep in key:
+        keep = self.keep if isinstance(self.keep, (tuple, list)) else (self.keep,)
+        if any(k in key for k in keep):
             return getattr(self.ck, meth)(rule, key, *a, **kw)
 
     def decide(self, rule, key, *a, **kw):
